@@ -43,15 +43,16 @@ def atT (ts : List String) : Nat := (kv ts "@").getD 0
 
 def initD (hdr : List String) : Option D := do
   let prim ← hdrGet hdr "prim"
+  let fixed := hdrGet hdr "fixed" == some "1"   -- traces of a library with the proposed repairs applied
   let nf := (hdr.filter fun t => (parseFid ((t.splitOn "=").headD "")).isSome ∧ t.contains '=').length
   let m ← match prim with
-    | "mutex" => some (MState.mx (Mx.init false nf))
-    | "cv" => some (MState.mx (Mx.init false nf))
-    | "timed" => some (MState.mx (Mx.init true nf))
-    | "rec" => some (MState.rm (Rm.init false false nf))
-    | "rect" => some (MState.rm (Rm.init true false nf))
-    | "shared" => some (MState.sm (Sm.init false nf))
-    | "sharedt" => some (MState.sm (Sm.init true nf))
+    | "mutex" => some (MState.mx (Mx.init false fixed nf))
+    | "cv" => some (MState.mx (Mx.init false fixed nf))
+    | "timed" => some (MState.mx (Mx.init true fixed nf))
+    | "rec" => some (MState.rm (Rm.init false fixed fixed nf))
+    | "rect" => some (MState.rm (Rm.init true fixed fixed nf))
+    | "shared" => some (MState.sm (Sm.init false fixed nf))
+    | "sharedt" => some (MState.sm (Sm.init true fixed nf))
     | "thread" => some (MState.th (Th.init nf))
     | "tls" => some (MState.th (Th.init nf))
     | _ => none
@@ -74,9 +75,11 @@ def mxRule (s : Mx.State) : Mx.Label → String
   | .unlock _ w => if w.isSome then "mx.unlock.wake" else "mx.unlock.none"
   | .tlfAcq f => (match s.pc f with
       | .tlfWoken => if s.occupied then "mx.tlfWokenAcq.barge" else "mx.tlfWokenAcq"
+      | .tlfLocking _ => "mx.tlfRecheckAcq"
       | _ => "mx.tlfFast")
   | .tlfPark _ _ d j => if d + j = 0 then "mx.tlfPark.d8" else "mx.tlfPark"
   | .tlfTimeout _ _ => "mx.tlfTimeout"
+  | .tlfRepark _ _ => "mx.tlfRepark"
   | .cvWait _ _ => "mx.cvWait"
   | .cvWaitFor _ _ _ d j => if d + j = 0 then "mx.cvWaitFor.d8" else "mx.cvWaitFor"
   | .cvTimeout _ _ => "mx.cvTimeout"
@@ -101,7 +104,10 @@ def mxAct (s : Mx.State) (x : Scratch) (ts : List String) : Act Mx.Label :=
           | "try_lock" => .step (.tryLock f (res = "1")) x
           | "unlock" => .note { x with pendW := upd x.pendW f none }
           | "notify_one" => .note { x with pendW := upd x.pendW f (pickAt s.mq ts res) }
-          | "park_timed" => .step (.tlfPark f (atT ts) (x.arg f) ((kv ts "j=").getD 0)) x
+          | "park_timed" =>
+              (match s.pc f with
+               | .tlfLocking _ => .step (.tlfRepark f ((kv ts "j=").getD 0)) x
+               | _ => .step (.tlfPark f (atT ts) (x.arg f) ((kv ts "j=").getD 0)) x)
           | "wake" => if res = "1" then .step (.tlfTimeout f (atT ts)) x else .skip
           | _ => .reject
         else if obj = "cq" then
@@ -137,11 +143,15 @@ def mxAct (s : Mx.State) (x : Scratch) (ts : List String) : Act Mx.Label :=
 /-! ### Rm -/
 
 def rmRule (s : Rm.State) : Rm.Label → String
-  | .lockAcq f => (match s.pc f with | .woken => "rm.lockWokenAcq" | _ => if s.count = 0 then "rm.lockFast" else "rm.lockFast.again")
-  | .lockPark _ => "rm.lockPark"
+  | .lockAcq f => (match s.pc f with
+      | .woken => "rm.lockWokenAcq"
+      | .locking => "rm.lockRecheckAcq"
+      | _ => if s.count = 0 then "rm.lockFast" else "rm.lockFast.again")
+  | .lockPark f => (match s.pc f with | .locking => "rm.lockRepark" | _ => "rm.lockPark")
   | .tryLock _ ok => if ok then (if s.count = 0 then "rm.tryOk" else "rm.tryOk.again") else "rm.tryFail"
-  | .unlock _ _ => if s.count = 1 then "rm.unlock.last" else "rm.unlock.inner"
-  | .tlfAcq f => (match s.pc f with | .tWoken => "rm.tlfWokenAcq" | _ => "rm.tlfFast")
+  | .unlock _ w => if s.count = 1 then (if w.isSome then "rm.unlock.last.wake" else "rm.unlock.last") else "rm.unlock.inner"
+  | .tlfAcq f => (match s.pc f with | .tWoken => "rm.tlfWokenAcq" | .tLocking _ => "rm.tlfRecheckAcq" | _ => "rm.tlfFast")
+  | .tlfRepark _ _ => "rm.tlfRepark"
   | .tlfPark _ _ _ _ => "rm.tlfPark"
   | .tlfTimeout _ _ => "rm.tlfTimeout"
   | .sleepStart _ _ _ => "rm.sleepStart"
@@ -157,8 +167,14 @@ def rmAct (s : Rm.State) (x : Scratch) (ts : List String) : Act Rm.Label :=
         if obj = "rq" then
           match op with
           | "park" => .step (.lockPark f) x
-          | "park_timed" => .step (.tlfPark f (atT ts) (x.arg f) ((kv ts "j=").getD 0)) x
-          | "wake" => if res = "1" then .step (.tlfTimeout f (atT ts)) x else .reject   -- D4: nobody is ever notified
+          | "park_timed" =>
+              (match s.pc f with
+               | .tLocking _ => .step (.tlfRepark f ((kv ts "j=").getD 0)) x
+               | _ => .step (.tlfPark f (atT ts) (x.arg f) ((kv ts "j=").getD 0)) x)
+          | "wake" =>
+              if res = "1" then .step (.tlfTimeout f (atT ts)) x
+              else if s.patch then .skip else .reject   -- D4: in the code as it is nobody is ever notified
+          | "notify_one" => if s.patch then .note { x with pendW := upd x.pendW f (pickAt s.rq ts res) } else .reject
           | _ => .reject
         else .reject
   | fs :: "E" :: rest =>
@@ -171,7 +187,8 @@ def rmAct (s : Rm.State) (x : Scratch) (ts : List String) : Act Rm.Label :=
         | "ret" :: "sleep" :: _ => .step (.sleepWake f (atT ts)) x
         | "ret" :: "lock" :: _ => .step (.lockAcq f) x
         | "ret" :: "try_lock" :: r :: _ => .step (.tryLock f (r = "1")) x
-        | "ret" :: "unlock" :: _ => .step (.unlock f none) x
+        | "call" :: "unlock" :: _ => .note { x with pendW := upd x.pendW f none }
+        | "ret" :: "unlock" :: _ => .step (.unlock f (x.pendW f)) x
         | "ret" :: "try_lock_for" :: "1" :: _ => .step (.tlfAcq f) x
         | "ret" :: "try_lock_for" :: "0" :: _ => .check (s.pc f = .idle)
         | "done" :: _ => .step (.finish f) x
@@ -181,22 +198,33 @@ def rmAct (s : Rm.State) (x : Scratch) (ts : List String) : Act Rm.Label :=
 /-! ### Sm -/
 
 def smRule (s : Sm.State) : Sm.Label → String
-  | .xAcq f => (match s.pc f with | .xWoken => if s.occ then "sm.xWokenAcq.barge" else "sm.xWokenAcq" | _ => "sm.xFast")
-  | .xPark _ => "sm.xPark"
+  | .xAcq f => (match s.pc f with
+      | .xWoken => if s.occ then "sm.xWokenAcq.barge" else "sm.xWokenAcq"
+      | .xLocking => "sm.xRecheckAcq"
+      | _ => "sm.xFast")
+  | .xPark f => (match s.pc f with | .xLocking => "sm.xRepark" | _ => "sm.xPark")
   | .tryX _ ok => if ok then "sm.tryXOk" else "sm.tryXFail"
   | .unlock _ coin w =>
-      if Sm.wakesShared s coin then "sm.unlock.shared" else if w.isSome then "sm.unlock.wake" else "sm.unlock.none"
+      if s.fixed then (if w.isSome then "sm.unlockF.wake" else "sm.unlockF.none")
+      else if Sm.wakesShared s coin then "sm.unlock.shared" else if w.isSome then "sm.unlock.wake" else "sm.unlock.none"
   | .sAcq f => (match s.pc f with
       | .sWoken => if s.occ && s.excl then "sm.sWokenAcq.barge" else "sm.sWokenAcq"
+      | .sLocking => "sm.sRecheckAcq"
       | _ => "sm.sFast")
-  | .sPark _ => "sm.sPark"
+  | .sPark f => (match s.pc f with | .sLocking => "sm.sRepark" | _ => if s.fixed then "sm.sParkF" else "sm.sPark")
   | .tryS _ ok => if ok then "sm.trySOk" else "sm.trySFail"
   | .unlockS _ w => if s.cnt - 1 = 0 then (if w.isSome then "sm.unlockS.wake" else "sm.unlockS.none") else "sm.unlockS.inner"
-  | .txAcq f => (match s.pc f with | .txWoken => if s.occ then "sm.txWokenAcq.barge" else "sm.txWokenAcq" | _ => "sm.txFast")
+  | .txAcq f => (match s.pc f with
+      | .txWoken => if s.occ then "sm.txWokenAcq.barge" else "sm.txWokenAcq"
+      | .txLocking _ => "sm.txRecheckAcq"
+      | _ => if s.fixed then "sm.txFastF" else "sm.txFast")
+  | .txRepark _ _ => "sm.txRepark"
+  | .tsRepark _ _ => "sm.tsRepark"
   | .txPark _ _ _ _ => "sm.txPark"
   | .txTimeout _ _ => "sm.txTimeout"
   | .tsAcq f => (match s.pc f with
       | .tsWoken => if s.occ && s.excl then "sm.tsWokenAcq.barge" else "sm.tsWokenAcq"
+      | .tsLocking _ => "sm.tsRecheckAcq"
       | _ => "sm.tsFast")
   | .tsPark _ _ _ _ => "sm.tsPark"
   | .tsTimeout _ _ => "sm.tsTimeout"
@@ -212,14 +240,23 @@ def smAct (s : Sm.State) (x : Scratch) (ts : List String) : Act Sm.Label :=
       | some f =>
         if obj = "eq" then
           match op with
-          | "park" => .step (if x.shared f then .sPark f else .xPark f) x
-          | "park_timed" => .step (.txPark f (atT ts) (x.arg f) ((kv ts "j=").getD 0)) x
+          | "park" =>
+              if x.shared f then (if s.fixed then .reject else .step (.sPark f) x)   -- D7: readers on the exclusive queue
+              else .step (.xPark f) x
+          | "park_timed" =>
+              (match s.pc f with
+               | .txLocking _ => .step (.txRepark f ((kv ts "j=").getD 0)) x
+               | _ => .step (.txPark f (atT ts) (x.arg f) ((kv ts "j=").getD 0)) x)
           | "wake" => if res = "1" then .step (.txTimeout f (atT ts)) x else .skip
           | "notify_one" => .note { x with pendW := upd x.pendW f (pickAt s.eq ts res) }
           | _ => .reject
         else if obj = "sq" then
           match op with
-          | "park_timed" => .step (.tsPark f (atT ts) (x.arg f) ((kv ts "j=").getD 0)) x
+          | "park" => if s.fixed ∧ x.shared f then .step (.sPark f) x else .reject
+          | "park_timed" =>
+              (match s.pc f with
+               | .tsLocking _ => .step (.tsRepark f ((kv ts "j=").getD 0)) x
+               | _ => .step (.tsPark f (atT ts) (x.arg f) ((kv ts "j=").getD 0)) x)
           | "wake" => if res = "1" then .step (.tsTimeout f (atT ts)) x else .skip
           | "notify_all" => .skip
           | _ => .reject
